@@ -297,13 +297,13 @@ func (c *ShardedMap) Restore(r io.Reader) (int, error) {
 		h := xxhash.Sum64(e.K)
 		b := &c.hashedBuckets[h%shards]
 
-		b.Lock()
-		b.data[h] = &e
-		b.Unlock()
-
 		if e.E != 0 {
 			atomic.AddInt64(&c.t.expirationsSet, 1)
 		}
+
+		b.Lock()
+		b.data[h] = &e
+		b.Unlock()
 
 		n++
 	}
